@@ -167,7 +167,7 @@ def analyse_body(body):
 def classify(h, pr):
     """pr: analysed body for harness h (spec dict). Returns result dict for the driver."""
     r = dict(name=h['name'], unit=h['_unit'], tags=h['tags'], complete=h.get('complete', False), bound=h.get('bound'),
-             functions=h.get('functions', []), checks=pr.get('checks'), time_s=pr.get('time_s'))
+             functions=h.get('functions', []), checks=pr.get('checks'), time_s=pr.get('time_s'), optional=h.get('optional', False))
     if pr['status'] == 'ok':
         if pr.get('covers') and pr['covers'][0] < pr['covers'][1]:
             r.update(status='undecided', reason=f"vacuity guard: only {pr['covers'][0]} of {pr['covers'][1]} cover properties satisfied")
@@ -245,7 +245,7 @@ def run_units(pid, kspecs, repo, workdir, tier):
         if 'error: could not compile' in out or re.search(r'^error(\[E\d+\])?:', out, re.M) and 'Checking harness' not in out:
             errs = '\n'.join(l for l in out.splitlines() if l.startswith('error'))[:1500]
             for h in hs:
-                results.append(dict(name=h['name'], unit=unit['unit'], tags=h['tags'], complete=h.get('complete', False), bound=h.get('bound'),
+                results.append(dict(name=h['name'], unit=unit['unit'], tags=h['tags'], complete=h.get('complete', False), bound=h.get('bound'), optional=h.get('optional', False),
                                     status='undecided', reason='harness crate does not compile against the current tree (lost anchor / changed API): ' + errs))
             continue
         parsed = parse_output(out, names)
@@ -256,7 +256,7 @@ def run_units(pid, kspecs, repo, workdir, tier):
                 if k == short or k.endswith('::' + short) or short.endswith('::' + k):
                     pr = v
             if pr is None:
-                results.append(dict(name=h['name'], unit=unit['unit'], tags=h['tags'], complete=h.get('complete', False), bound=h.get('bound'),
+                results.append(dict(name=h['name'], unit=unit['unit'], tags=h['tags'], complete=h.get('complete', False), bound=h.get('bound'), optional=h.get('optional', False),
                                     status='undecided', reason='harness not found in Kani output (timeout/OOM?) rc=%s tail=%s' % (rc, out[-800:])))
                 continue
             r = classify(h, pr)
